@@ -18,7 +18,7 @@ git apply -R $S/patch.diff
 DEMO_WITHOUT=pass; go test -vet=off -count=1 -timeout 120s -run '^TestSeededDemo$' ./$DEST >/tmp/seed_without.log 2>&1 || DEMO_WITHOUT=fail
 rm -f $DEST/zz_seeded_demo_test.go
 echo "seed $PROP/$N: build=$BUILD baseline=$BASE demo_with_change=$DEMO_WITH demo_without=$DEMO_WITHOUT"
-D=/var/tmp/govc-seedcheck/repo; mkdir -p /var/tmp/govc-seedcheck; rsync -a --delete --exclude=.git /repo/ $D/; (cd $D && patch -p1 < $S/patch.diff >/dev/null) || { echo "does not apply to /repo"; exit 9; }
+D=/var/tmp/govc-seedcheck/repo; mkdir -p /var/tmp/govc-seedcheck; rsync -a --delete --exclude=.git ${GOVC_SRC:-/repo}/ $D/; (cd $D && patch -p1 < $S/patch.diff >/dev/null) || { echo "does not apply to /repo"; exit 9; }
 for p in $CHECKS; do
   OUT=$(cd /verif && GOVC_REPO=$D ${GOVC_BIN:-./bin/govc} check -p $p -no-evidence 2>&1)
   echo "$OUT" | grep -c "^VIOLATION" | sed "s/^/  check $p violations: /"
